@@ -182,6 +182,28 @@ def bounded(ctx):
                     name, modes, got[0][:2], ref[0][:2]), case=dict(scenario=name, spellings=list(modes)), expected=list(ref[0][:2]), observed=list(got[0][:2])))
         if len(samples) < 2:
             samples.append(dict(scenario=name, reference_outcome=list(ref[0][:1])))
+    # (3) the complete scenario with one plasmid at every rotation (the origin inside an overhang, a site ...) and spelled
+    # in lower case or per-letter mixed case, the others upper case: same product as the all-upper-case, unrotated run
+    vt, mts = scen["complete"]
+    ref = run(vt, mts, ["upper"] * (len(mts) + 1))
+    for which in range(len(mts) + 1):
+        text = vt if which == 0 else mts[which - 1]
+        for r_ in range(len(text)):
+            rot = text[r_:] + text[:r_]
+            for mode in ("lower", "mixed"):
+                evals += 1
+                modes = ["upper"] * (len(mts) + 1)
+                modes[which] = mode
+                v2 = rot if which == 0 else vt
+                m2 = [rot if i + 1 == which else t for i, t in enumerate(mts)]
+                got = run(v2, m2, modes)
+                distinct.add(("rot", which, r_, mode))
+                same = got[0][0] == ref[0][0] and got[1] is not None and ba.is_rotation(got[1], ref[1])
+                if not same:
+                    viol.append(dict(name="assembly_rotated_%s_%d" % (mode, which),
+                                     what="complete scenario with plasmid %d rotated by %d and spelled %s ends with %r; the upper-case inputs give a product" % (
+                                         which, r_, mode, got[0][:2]), case=dict(plasmid=which, rotation=r_, spelling=mode),
+                                     expected=list(ref[0][:1]), observed=list(got[0][:2])))
     uniq = {}
     for v in viol:
         uniq.setdefault(v["name"], v)
@@ -191,7 +213,8 @@ def bounded(ctx):
                      "the upper-case spelling (verdict, overhangs, target, placeholder up to case); (2) a BsaI vector + 2 modules in 4 "
                      "scenarios (complete, invalid vector, missing module, duplicate) under per-record assignments of {upper, lower, "
                      "mixed}, compared with the all-upper-case run (same error class and stalled overhang up to case, or same product "
-                     "up to case and rotation)",
+                     "up to case and rotation); (3) the complete scenario with one plasmid at every rotation, lower-case or per-letter "
+                     "mixed, the others upper-case",
                 bound="%d classes x 3 spellings; 4 scenarios x up to 27 spelling assignments" % len(classes),
                 samples=samples, violations=list(uniq.values())[:20], n_violations=len(uniq))
 
